@@ -624,3 +624,33 @@ def c10i(ctx):
                 and ('geom' in unparse(x.func.value))]
         ok = bool(uses) and all(x.args and depends(x.args[0], lambda y: is_call(y, 'self._geom_in_coverage_srs'), defs) for x in uses)
         ctx.check(ok, 'GeomCoverage.%s:argument-in-coverage-srs' % m, 'the geometry tested against the coverage went through _geom_in_coverage_srs', f)
+
+
+@rule('C10.j', floor=2)
+def c10j(ctx):
+    """what is clipped away is really gone: mask_image overwrites the pixels outside the permitted area with one constant, fully
+    transparent colour (paste under the mask).  Merely lowering their alpha leaves the colours in the image; every later step that
+    drops or ignores the alpha channel (conversion to RGB for a JPEG / opaque PNG answer, blending a layer with an opacity) would
+    show the content of the forbidden area again"""
+    fn = ctx.fn('mapproxy/image/mask.py:mask_image')
+    defs = Defs(fn.node)
+    pastes = [x for x in fn.walk() if isinstance(x, ast.Call) and isinstance(x.func, ast.Attribute) and x.func.attr == 'paste' and len(x.args) >= 3]
+    ok = False
+    for x in pastes:
+        col = resolve_const_tuple(x.args[0], defs)
+        if col is not None and len(col) == 4 and col[3] == 0 and is_call(fn.canon.expr(x.args[2]), 'image_mask_from_geom'):
+            ok = True
+    ctx.check(ok, 'mask_image:content-overwritten', 'the masked pixels are overwritten with a constant colour of alpha 0 (paste(<const RGBA>, .., mask))', fn,
+              fail='mask_image does not overwrite the clipped pixels (it only changes their alpha / leaves them): the colours of the forbidden '
+                   'area survive in the image and reappear where the alpha channel is dropped')
+    rets = returns_of(fn.node)
+    ok = bool(rets) and all(r.value is not None for r in rets)
+    ctx.check(ok, 'mask_image:returns-image', 'mask_image returns the masked image', fn)
+
+
+def resolve_const_tuple(e, defs):
+    from ..util import resolve1
+    e = resolve1(e, defs)
+    if isinstance(e, ast.Tuple) and all(isinstance(x, ast.Constant) for x in e.elts):
+        return tuple(x.value for x in e.elts)
+    return None
